@@ -7,6 +7,7 @@
 
 #include "cctz/time_zone.h"
 #include "ops.h"
+#include "premain.h"
 #include "seams.h"
 #include "simsched.h"
 #include "tzif.h"
@@ -32,6 +33,7 @@ J c19_to_json(const C19Case& c) {
   for (const C19Fault& f : c.faults) { J jf = J::obj(); jf.set("k", f.k); jf.set("open_index", f.open_index); jf.set("at", f.at); jf.set("err", f.err); jf.set("transient", f.transient); fl.push(jf); }
   j.set("faults", fl);
   j.set("chunk", c.chunk); j.set("chunk2", c.chunk2);
+  if (c.premain_world >= 0) j.set("premain_world", c.premain_world);
   J sl = J::arr(); sl.push("ops"); sl.push("faults");
   j.set("shrink_lists", sl);
   return j;
@@ -48,6 +50,7 @@ bool c19_from_json(const J& j, C19Case* c) {
   for (const J& jo : j.at("ops").a) { C19Op o; o.op = jo.gets("op"); o.name = jo.gets("name"); c->ops.push_back(o); }
   for (const J& jf : j.at("faults").a) { C19Fault f; f.k = jf.gets("k"); f.open_index = static_cast<int>(jf.geti("open_index")); f.at = jf.geti("at"); f.err = static_cast<int>(jf.geti("err")); f.transient = jf.getb("transient"); c->faults.push_back(f); }
   c->chunk = static_cast<int>(j.geti("chunk", 4096)); c->chunk2 = static_cast<int>(j.geti("chunk2"));
+  c->premain_world = static_cast<int>(j.geti("premain_world", -1));
   return true;
 }
 
@@ -259,6 +262,7 @@ const int64_t kCross = 6 * 19 * 5;
 int64_t c19_part_size(const std::string& part, const std::string& tier) {
   (void)tier;
   if (part == "cross") return kCross * static_cast<int64_t>(name_opts().size());
+  if (part == "premain") return premain_worlds();
   return -1;
 }
 
@@ -266,6 +270,23 @@ C19Case gen_c19(const std::string& part, const std::string& tier, uint64_t seed,
   (void)tier;
   C19Case c;
   c.part = part;
+  if (part == "premain") {
+    // The world was executed before main() by the probe in premain.cc (it is selected by this run's index); here it
+    // is only described, so that the oracle and the replay file know what was asked: same files, same environment.
+    c.premain_world = static_cast<int>(idx % premain_worlds());
+    const char *tzdir, *tz;
+    premain_env(c.premain_world, &tzdir, &tz);
+    c.tzdir_set = tzdir != nullptr; c.tzdir = tzdir ? tzdir : "";
+    c.tz_set = tz != nullptr; c.tz = tz ? tz : "";
+    int mk = 777;
+    for (const char* p : {"/usr/share/zoneinfo/PreMain", "/sim/zi/PreMain", "/abs/PreMain", "/etc/localtime"}) { FsSpec f; f.path = p; f.content = "marker"; f.marker = mk++; c.fs.push_back(f); }
+    for (int i = 0; i < kPremainOps; ++i) {
+      C19Op o; std::string t = premain_op_text(i);
+      if (t.compare(0, 5, "load:") == 0) { o.op = "load"; o.name = t.substr(5); } else o.op = t;
+      c.ops.push_back(o);
+    }
+    return c;
+  }
   standard_tree(&c);
   Rng r(mix64(mix64(seed, hash_str("C19" + part)), static_cast<uint64_t>(idx)));
   auto set_env = [&](size_t a, size_t b, size_t d) {
@@ -547,6 +568,24 @@ Outcome exec_c19(const C19Case& c, bool keep_log, Stats* stats) {
 
   std::vector<OpResult> res1, res2;
   std::vector<std::string> opens1, opens2;
+  if (c.premain_world >= 0) {
+    // Judge what the global constructor got before main() - then run the same world again now (the process is
+    // cold, so the name cache still holds what was loaded then) and judge that too.
+    if (!g_premain.ran || g_premain.world != c.premain_world) {
+      viol("machinery:premain-probe-did-not-run", "the pre-main probe did not execute world " + std::to_string(c.premain_world), "ran=" + std::to_string(g_premain.ran) + " world=" + std::to_string(g_premain.world));
+      out.log_hash = 3;
+      return out;
+    }
+    run_world(c.chunk, &res2, &opens2);   // post-main repeat (also installs fs.nodes for the model)
+    res1.assign(c.ops.size(), OpResult());
+    for (size_t i = 0; i < c.ops.size() && i < 8; ++i) {
+      const PremainOp& pr = g_premain.r[i];
+      res1[i].ok = pr.ok != 0; res1[i].is_utc = pr.is_utc != 0; res1[i].name = pr.name; res1[i].abbr = pr.abbr; res1[i].offset = pr.off;
+    }
+    opens1.assign(static_cast<size_t>(g_premain.fopen_calls), "(before main)");
+    env_was_read = true;
+    if (stats) stats->add("probe.worlds_executed_before_main");
+  } else
   run_world(c.chunk, &res1, &opens1);
   set_phase("oracle");
   ev("env TZDIR=" + (c.tzdir_set ? "'" + c.tzdir + "'" : "(unset)") + " TZ=" + (c.tz_set ? "'" + c.tz + "'" : "(unset)") + " LOCALTIME=" + (c.lt_set ? "'" + c.lt + "'" : "(unset)"));
@@ -613,6 +652,10 @@ Outcome exec_c19(const C19Case& c, bool keep_log, Stats* stats) {
     if (faulted && clean_failure) continue;   // an injected fault may turn success into a clean failure, nothing else
     if (!e.ok && o.op == "load" && !r.ok) viol("c19:fallback", what, why + "; got " + render(r));   // failed, but did not leave UTC
     else viol("c19:resolution", what, why + "; got " + render(r));
+  }
+  if (c.premain_world >= 0 && !out.poisoned) {
+    for (size_t i = 0; i < c.ops.size(); ++i)
+      if (render(res1[i]) != render(res2[i])) { viol("c19:resolution", c.ops[i].op + "('" + c.ops[i].name + "') asked again after main() started", "before main(): " + render(res1[i]) + "; now: " + render(res2[i])); break; }
   }
   if (c.chunk2 > 0 && !faulted && !out.poisoned) {
     run_world(c.chunk2, &res2, &opens2);
